@@ -8,6 +8,7 @@ CONSTANTS
   MaxCfg = 1
   MaxParse = 2
   Family = "c11"
+  Reconfigure = TRUE
   Emit = TRUE
 INVARIANTS
   Inv_ExpectIff
